@@ -25,11 +25,14 @@ from ..shadow import real_chain
 from modelx.core.errors import FormulaError
 
 CFG = {
-    "weights": {"eval": 9, "reeval": 2, "set": 0.5, "clearat": 0.6, "clear": 0.3, "clearall": 0.1,
-                "admin": 1.6, "maxdepth": 0.7},
+    "weights": {"eval": 9, "reeval": 2, "set": 0.6, "clearat": 0.6, "clear": 0.3, "clearall": 0.15,
+                "admin": 1.6, "maxdepth": 0.7, "setformula": 0.4},
     "compare": ["values", "graph", "quiescent", "maxdepth"],
     "maxdepths": [None, None, 5, 8, 12, 4, 6],
     "raise_p": 0.10, "none_p": 0.08, "catch_all_p": 0.0,
+    # cells that fail whatever the arguments / for some arguments, most of them AFTER having obtained the value of a lower
+    # cells; callers that handle the failure of a callee: with a default, or by TRANSLATING it (a new exception object)
+    "fail_cell_p": 0.2, "after_call_p": 0.6, "handled_seq_p": 0.3, "trx_p": 0.4,
     "rule": "random programs with raise / None / wrong-arity / depth-limit failure points (kinds Value, Key, "
             "ZeroDiv, Type, KeyboardInterrupt, NoneReturned, Deep) at any depth, try/except of specific kinds; "
             "histories of 8-16 queries and value edits, interleaved with changes of the recursion limit "
@@ -56,6 +59,24 @@ def none_rule(case, impl, out, stats, hist):
                          "%s/%s/%s)" % (node, next(c for c in case["cells"] if c["id"] == cid).get("allow_none"),
                                         case["cells"][0].get("an_space"), case["cells"][0].get("an_model", False)), hist)
                 return
+
+
+REPAIRS = ("set", "clearat", "clear", "clearall", "setformula", "setcached")
+
+
+def graph_rule(impl, out, stats, hist):
+    """whatever failed before: the element nodes of the dependency graph are exactly the elements holding a value (a
+    failed element has neither), object nodes belong to uncached cells"""
+    stats["oracle_graph_checks"] += 1
+    held = {x.split("=")[0] for x in impl.observe("values").split()[1:]}
+    g = impl.observe("graph")
+    nodes = set(g[len("graph nodes "):].split(" edges")[0].split())
+    elems = {n for n in nodes if not n.endswith("*")}
+    if elems != held:
+        out.fail("graph element nodes differ from the elements holding a value: only in the graph %s, only held %s" % (
+            sorted(elems - held)[:3], sorted(held - elems)[:3]), hist)
+        return False
+    return True
 
 
 def depth_rule(impl, limit, out, stats, hist, deep_chain):
@@ -99,12 +120,18 @@ def oracle(case, recs, out, stats):
     impl = ExecImpl(case["cells"], case["refs"], case["n_rn"], case["maxdepth"], log=True)
     nontrivial = False
     chain_failed = False
+    graph_ok = True
     limit = case["maxdepth"] if case["maxdepth"] else 100000     # the limit as the history configured it
     try:
         ex = impl.ex
         for k, op in enumerate(case["ops"]):
+            if k and graph_ok:
+                graph_ok = graph_rule(impl, out, stats, X.case_json(dict(case, ops=case["ops"][:k])))
             if op[0] != "eval":
-                impl.apply(op)
+                r = impl.apply(op)
+                if op[0] in REPAIRS and r.split()[:2] in (["err", "Key"], ["err", "Index"], ["err", "Assertion"]):
+                    out.fail("%s raised %s out of the library after earlier failed evaluations" % (" ".join(op), r.split()[1]),
+                             X.case_json(dict(case, ops=case["ops"][:k + 1])))
                 if op[0] == "maxdepth":
                     limit = int(op[1])
                 if op[0] in ("maxdepth", "admin"):
@@ -164,6 +191,8 @@ def oracle(case, recs, out, stats):
             missing = [x for x in before if x not in after]
             if missing:
                 out.fail("values held before the failed call are gone or changed: %s" % missing[:3], hist)
+        if graph_ok:
+            graph_rule(impl, out, stats, X.case_json(case))
     finally:
         impl.close()
     without_admin(case, recs, out, stats)
@@ -175,6 +204,9 @@ def oracle(case, recs, out, stats):
         try:
             for k in keep:
                 r = impl2.apply(case["ops"][k])
+                if recs[k]["op"][0] in REPAIRS and r != recs[k]["impl"] and not ("Deep" in r or "Deep" in recs[k]["impl"]):
+                    out.fail("%s answers %s after earlier failed evaluations but %s when they never happened" % (
+                        " ".join(recs[k]["op"]), recs[k]["impl"], r), X.case_json(dict(case, ops=case["ops"][:k + 1])))
                 if recs[k]["op"][0] == "eval" and r != recs[k]["impl"]:
                     # a shorter history can only differ through the recursion limit (chains
                     # shortened by values cached during the removed, partially successful calls)
@@ -182,7 +214,8 @@ def oracle(case, recs, out, stats):
                         continue
                     out.fail("eval %s returns %s after earlier failures but %s when they never happened" % (
                         " ".join(recs[k]["op"][1:]), recs[k]["impl"], r),
-                        X.case_json(dict(case, ops=case["ops"][:k + 1])))
+                        X.case_json(dict(case, ops=case["ops"][:k + 1])),
+                        key=KNOWN_CAUGHT if _default_after_edit(case, k) else None)
         finally:
             impl2.close()
     return nontrivial
@@ -243,10 +276,131 @@ def scenarios():
     return out
 
 
+def translation_scenarios():
+    """Scenario family "a failure that a caller handles": base c0(x) = 3x, C = c1(x) = c0(x) + 1, B = c2 obtains C(x) and
+    then raises (for every argument, or only when C(x) > 5: x >= 2), A = c3 calls B and lets the exception pass /
+    re-raises it after a block (`except K: c0(x); raise`) / TRANSLATES it (`except K: raise K2(..)`, with and without
+    `from e`: a new exception object leaves A) / swallows it (a default); T = c4 calls A and C.  B and A cached or
+    uncached.  History: the failing request (twice: retry = the same), a request that succeeds, then a REPAIR - the
+    input below the failed element changed, the failing formula replaced, values cleared - and everything asked again;
+    then the failure provoked once more.  After every step: no failed element holds a value, graph nodes = held
+    values, every edit goes through, re-evaluation = a run in which the failures never happened."""
+    P0, L = ("p", 0), (lambda i: ("lit", i))
+    callB, callC = ("call", 2, [P0]), ("call", 1, [P0])
+    handlers = {
+        "pass": callB,
+        "reraise": ("tryre", callB, "k0", ("call", 0, [P0])),
+        "translate": ("trx", callB, "k0", 1, 0),
+        "translate-from": ("trx", callB, "k0", 3, 1),
+        "translate-all-kinds": ("trx", ("trx", callB, "k0", 2, 1), "k2", 1, 0),
+        "swallow": ("try", callB, "k0", L(-1)),
+        "swallow-then-fail": ("add", ("try", callB, "k0", L(-1)), ("if", ("lt", L(2), P0), ("raise", 1), L(0))),
+    }
+    bodies_b = {"always": ("add", callC, ("raise", 0)),
+                "some": ("if", ("lt", L(5), callC), ("raise", 0), ("add", callC, L(1)))}
+    repairs = {
+        "input": [["set", "0", "2", "=", "0"]],
+        "input-above": [["set", "1", "2", "=", "1"]],
+        "formula": [["setformula", "2", "(add (call 1 (p 0)) (lit 1000))"]],
+        "clearall": [["clearall", "1"]],
+        "clearat-base": [["clearat", "0", "2"]],
+        "clear": [["clear", "1"], ["clear", "0"]],
+    }
+    out = []
+    for hname, ha in handlers.items():
+        for bname, bb in bodies_b.items():
+            for (cb, ca) in ((True, True), (False, True), (True, False)):
+                for rname, rep in repairs.items():
+                    if bname == "always" and rname in ("input", "input-above") and hname not in ("translate", "swallow"):
+                        continue        # nothing to repair by an input when B fails whatever C returns
+                    cells = [
+                        {"id": 0, "nparams": 1, "cached": True, "body": ("mul", P0, L(3))},
+                        {"id": 1, "nparams": 1, "cached": True, "body": ("add", ("call", 0, [P0]), L(1))},
+                        {"id": 2, "nparams": 1, "cached": cb, "body": bb},
+                        {"id": 3, "nparams": 1, "cached": ca, "body": ha},
+                        {"id": 4, "nparams": 1, "cached": True, "body": ("add", ("call", 3, [P0]), callC)},
+                    ]
+                    for c in cells:
+                        c["allow_none"] = False
+                    ask = [["eval", "4", "2"], ["eval", "3", "2"], ["eval", "2", "2"], ["eval", "1", "2"]]
+                    ops = ([["eval", "4", "2"], ["eval", "4", "2"], ["eval", "4", "1"], ["eval", "3", "3"]] + rep + ask
+                           + [["set", "0", "2", "=", "9"]] + ask + [["clearall", "0"]] + ask[:2])
+                    out.append({"cells": cells, "refs": {0: 1, 1: 2, 2: 3, 3: 4}, "n_rn": 2, "maxdepth": None,
+                                "ops": [list(o) for o in ops],
+                                "label": "handled-failure/%s/B fails %s/B %s A %s/repair %s" % (
+                                    hname, bname, "cached" if cb else "uncached", "cached" if ca else "uncached", rname)})
+    return out
+
+
+def python_level(out, stats):
+    """Two histories outside the formula grammar (plain modelx): the SAME exception object raised by two successive
+    evaluations; a formula that assigns its own element (`_space.w[x] = v`) and raises afterwards."""
+    from ..impl import close_all
+    close_all()
+    with quiet():
+        m = mx.new_model("P")
+        s = m.new_space("S")
+        m.E = ValueError("one exception object")
+        s.new_cells("a", formula="def a(x):\n    raise E")
+        s.new_cells("b", formula="def b(x):\n    return a(x) + 1")
+        for i in (1, 2, 3):
+            stats["python_level_scenarios"] += 1
+            try:
+                s.b(i)
+                got = "no error"
+            except FormulaError:
+                got = "FormulaError" if mx.get_error() is m.E else "FormulaError carrying %r" % (mx.get_error(),)
+            except BaseException as e:      # noqa: BLE001
+                got = type(e).__name__
+            if got != "FormulaError":
+                out.fail("evaluation %d of a formula that raises one and the same exception object ended in %s instead of "
+                         "FormulaError carrying it" % (i, got), {"scenario": "python-level"}, key=KNOWN_SHARED_EXC)
+                break
+        s.new_cells("w", formula="def w(x):\n    _space.w[x] = 42\n    raise ValueError('after assigning its own value')")
+        try:
+            s.w(1)
+        except BaseException:               # noqa: BLE001
+            pass
+        stats["python_level_scenarios"] += 1
+        if dict(s.w):
+            out.fail("the element w(1) failed (its formula raised after `_space.w[x] = 42`) and holds the value %r; graph nodes: "
+                     "%d" % (dict(s.w), len(m._impl.tracegraph.nodes)), {"scenario": "python-level"}, key=KNOWN_SELF_ASSIGN)
+    close_all()
+
+
+KNOWN_CAUGHT = "C05-caught-failure-untracked"
+
+
+def _default_after_edit(case, k):
+    """the trigger of C02-caught-failure-untracked seen from here: some formula handles a failure with a DEFAULT
+    (`try: ... except K: <value>`: the value it then stores records no dependency on the callee that failed), a removed
+    evaluation failed at the top but left such an element behind, and an edit before op k changed what the callee does"""
+    from ..expr import subexprs, parse_sexp
+    bodies = [c["body"] for c in case["cells"]]
+    bodies += [parse_sexp(" ".join(op[2:])) for op in case["ops"][:k] if op[0] == "setformula"]
+    has_default = any(e[0] == "try" and e[3][0] != "raise" for b in bodies for e in subexprs(b))
+    return has_default and any(op[0] in REPAIRS for op in case["ops"][:k])
+
+
+KNOWN_SHARED_EXC = "C05-shared-exception-object"
+KNOWN_SELF_ASSIGN = "C05-own-assignment-then-failure"
+
+
 def run(ctx, out):
-    X.run_family(ctx, out, CFG, oracle, 150, 2500, structured=scenarios())
+    sc = translation_scenarios()
+    if ctx.tier != "thorough":
+        # quick: every handler x B x flags with a rotating third of the repairs (which: by the seed)
+        sc = [c for i, c in enumerate(sc) if (i + ctx.seed) % 3 == 0]
+    stats = X.run_family(ctx, out, CFG, oracle, 150, 2500, structured=scenarios() + sc)
+    python_level(out, stats)
+    out.coverage["input_distribution"]["python_level_scenarios"] = stats["python_level_scenarios"]
     out.assumptions.append("'does not crash the interpreter' is a CPython C-stack fact: exercised (depth-limit cases), not proved")
 
 
 def replay(ctx, payload, out):
+    import collections
+    h = payload.get("history") or {}
+    if isinstance(h, dict) and h.get("scenario") == "python-level":
+        python_level(out, collections.Counter())
+        return
     X.replay_family(ctx, payload, out, CFG, oracle)
